@@ -130,6 +130,11 @@ var checkLinTicks = ev.Register("linear-ticks", func(c *LinCase) ev.Outcome {
 	s := scale.Linear{Min: c.Min, Max: c.Max, Base: c.Base}
 	lo, hi := math.Min(c.Min, c.Max), math.Max(c.Min, c.Max)
 	w := hi - lo
+	if w > 0 && (math.Abs(lo+hi)/2 > 1.001e3*w || w < 0.999e-9 || w > 1.001e9) {
+		// beyond |centre|/width = 1e3 the library's 1e-10 slack is below rounding error: outside the property
+		s.Ticks(o) // must still not panic
+		return ev.OK(false, "outside-domain")
+	}
 	slack2 := 2e-10 * w
 	major, minor := s.Ticks(o)
 	classes := []string{"linear"}
@@ -551,7 +556,19 @@ func TestLinearTicks(t *testing.T) {
 			centre = gen.Sign(rt, "cs") * width * gen.LogUniform(rt, 1e-3, 1e3, "centreRatio")
 		}
 		c.Min, c.Max = centre-width/2, centre+width/2
-		switch rapid.IntRange(0, 5).Draw(rt, "shape") {
+		switch rapid.IntRange(0, 6).Draw(rt, "shape") {
+		case 6: // an end just off a round value (by 1e-12..1e-6 widths), typically far from zero
+			unit := math.Pow(10, math.Round(math.Log10(width)))
+			k := math.Round(c.Min / unit)
+			eps := gen.Sign(rt, "es") * gen.LogUniform(rt, 1e-12, 1e-6, "eps") * width
+			c.Min = k*unit + eps
+			c.Max = c.Min + width
+			if rapid.Bool().Draw(rt, "maxToo") {
+				c.Max = math.Round(c.Max/unit)*unit - eps
+			}
+			if !(c.Min < c.Max) {
+				c.Max = c.Min + width
+			}
 		case 0: // snapped to round values
 			c.Min = math.Round(c.Min/width*10) * width / 10
 			c.Max = c.Min + width
